@@ -81,6 +81,8 @@ Failed ==
     F("C10_Same", (T.c01 /\ T.generic /\ T.genericp) => C10_Same(DP, T.start, CU, CP)) \cup
     F("C10_Least", T.generic => C10_Least(DP, CU)) \cup
     F("C12_Shape", (CU.st = "fail" => C12_Shape(DP, CU.err)) /\ (CP.st = "fail" => C12_Shape(DP, CP.err))) \cup
+    \* C03 on a recorded pair: cu/cp under one setting of the code-generation options, cu3/cp3 under another
+    F("C03_Same", T.has3 => (C03_SameU(CU, T.cu3) /\ C03_SameP(CP, T.cp3))) \cup
     \* C14 on a recorded pair: cu = run on (raw, 0), cu2 = run on (pre \o raw \o post, shift)
     F("C14_Lockstep", (T.has2 /\ ~BeforeStart(T.shift, T.cu2)    \* named deviation F10b reported separately
                        /\ ((CU.st = "done" /\ ~OpenEnded(MU)) \/ (CU.st = "fail" /\ T.nopost)))
